@@ -88,7 +88,7 @@ EXPECTED_PROBES = ["csv-deleted-and-data-changed", "tex-deleted-and-template-cha
                    "changed-plot-next-to-unchanged-plot", "grouped-variant", "group-with-one-changed-member",
                    "pipeline-object-reused", "default-jinja-environment",
                    "stale-as-consequence-of-known-finding", "static-context",
-                   "members-written-before-grouping"]
+                   "members-written-before-grouping", "image-format-not-png", "makefilename-before-tocsv"]
 
 _TIER = ["quick"]
 
@@ -105,7 +105,7 @@ OUTDIR = "out"
 TEMPLATE_PATH = "templates/plot.tex"
 KINDS = ["csv", "tex", "pdf", "png"]
 MKF = ["plain", "dir", "dirfmt", "prefix", "suffix", "presuf", "ctxprefix", "second-noow", "second-ow",
-       "ctxname", "ctxdir-empty", "ctxext-empty", "mkf-ext", "suffix-scaled", "prefix-scaled", "dir-optional", "prefix-alt"]
+       "ctxname", "ctxdir-empty", "ctxext-empty", "mkf-ext", "suffix-scaled", "prefix-scaled", "dir-optional", "prefix-alt", "dir-then-name"]
 
 
 def template_text(version, newline=False):
@@ -147,6 +147,9 @@ def make_filenames(variant):
         return [MF("{{plot.name}}"), MF("other_{{plot.name}}", dirname="zzz")]
     if variant == "second-ow":
         return [MF(prefix="pre_"), MF("{{plot.name}}"), MF("ow_{{plot.name}}", overwrite=True)]
+    if variant == "dir-then-name":
+        # the directory is set by an element of its own, before anything else touched context.output
+        return [MF(dirname="sub"), MF("{{plot.name}}")]
     if variant == "prefix-alt":
         # a chain of alternative names: the first cannot be formatted, the pending prefix must
         # still be there for the second
@@ -184,6 +187,8 @@ def expected_name(variant, name):
         return "zzz", name
     if variant == "second-ow":
         return "", "ow_" + name
+    if variant == "dir-then-name":
+        return "sub", name
     if variant == "prefix-alt":
         return "", "pre_" + name
     if variant == "dir-optional":
@@ -249,6 +254,9 @@ def gen_scenario(tape):
     sc.w2 = tape.weighted([(6, "plain"), (1, "existing_unchanged"), (1, "overwrite")], "write2")
     sc.ow_pdf = tape.chance(1, 8, "latex-overwrite")
     sc.ow_png = tape.chance(1, 8, "png-overwrite")
+    sc.imgfmt = tape.choice(["png", "png", "jpeg"], "image-format")
+    # MakeFilename in front of ToCSV (the value has no context.output yet) or behind it
+    sc.mkf_first = tape.chance(1, 4, "makefilename-before-tocsv")
     sc.clock = tape.weighted([(12, "normal"), (1, "tie"), (1, "skew")], "clock")
     sc.fail = tape.chance(1, 16, "converter-failure-mode")
     sc.step = 1 + tape.draw(3, "tick-step")
@@ -346,11 +354,17 @@ class World(object):
             return {kind: True}
         lkw = {"overwrite": True} if sc.ow_pdf else {}
         pkw = {"overwrite": True} if sc.ow_png else {}
+        if getattr(sc, "imgfmt", "png") != "png":
+            pkw["format"] = sc.imgfmt
         els = []
         if getattr(sc, "static", False):
             els.append(lena.meta.SetContext("static.note", "s"))
-        els.append(lena.output.ToCSV())
-        els += make_filenames(sc.mkf)
+        if getattr(sc, "mkf_first", False):
+            els += make_filenames(sc.mkf)
+            els.append(lena.output.ToCSV())
+        else:
+            els.append(lena.output.ToCSV())
+            els += make_filenames(sc.mkf)
         els += [Tap("mkf", rec, self.log),
                 lena.output.Write(OUTDIR, verbose=False, **wopts(sc.w1)), Tap("w1", rec, self.log),
                 (lena.output.RenderLaTeX("plot.tex", environment=self.env())
@@ -367,6 +381,8 @@ class World(object):
         d, f = expected_name(self.sc.mkf, "p%d" % p)
         base = "/".join(x for x in (OUTDIR, d, f) if x)
         paths = dict((k, self.fs.norm(base + "." + k)) for k in KINDS)
+        # the image file carries the extension of the chosen format; it is still called "png" here
+        paths["png"] = self.fs.norm(base + "." + getattr(self.sc, "imgfmt", "png"))
         # an existing (even empty) file extension is not replaced; a missing one is set
         if self.sc.mkf == "ctxext-empty":
             paths["csv"] = self.fs.norm(base)
@@ -396,6 +412,10 @@ def run(tape):
         res.probe("default-jinja-environment")
     if sc.static:
         res.probe("static-context")
+    if sc.imgfmt != "png":
+        res.probe("image-format-not-png")
+    if sc.mkf_first:
+        res.probe("makefilename-before-tocsv")
     log.ev("cfg", "c19", sc.nplots, sc.mkf, sc.w1, sc.w2, sc.ow_pdf, sc.ow_png, sc.clock)
     if sc.w1 == "existing_unchanged" or sc.w2 == "existing_unchanged":
         res.probe("existing_unchanged")
@@ -690,7 +710,7 @@ def check_run(w, sc, res, r, spec, rec, out, sub, start_image, oplog_start, dele
                 # the converter's output carries a serial number: compare what it was made from
                 fresh = content.startswith(pdf_of(tex, datas) + "@")
             else:
-                fresh = content == png_of(now[P[p]["pdf"]])
+                fresh = content == png_of(now[P[p]["pdf"]], getattr(sc, "imgfmt", "png"))
             if kind == "pdf" and fresh:
                 w.tainted.discard(p)
             incoming = tap_of(rec, stages[si - 1][0], name)[0][1] if si else None
